@@ -659,6 +659,9 @@ def check_control_escape(repo: Repo, chk: Check, rule: str) -> None:
         return
     for c in subs:
         repl = c.args[0] if c.args else None
+        # a replacement given by name: read the module-level function it names
+        if isinstance(repl, ast.Name) and f'{f.mod.name}.{repl.id}' in repo.funcs:
+            repl = repo.funcs[f'{f.mod.name}.{repl.id}'].node
         consts: List[str] = []
         for n in ast.walk(repl) if repl is not None else []:
             if isinstance(n, ast.Constant) and isinstance(n.value, (str, bytes)):
@@ -668,10 +671,14 @@ def check_control_escape(repo: Repo, chk: Check, rule: str) -> None:
         if not specs or not uses_ord:
             chk.error(f'{rule}: the control-character replacement in html2stan has a form this rule cannot read ({norm(repl)[:60] if repl is not None else "?"})')
             continue
-        hexok = all(_re.fullmatch(r'%02[xX]|\{[^}]*:02[xX]\}|02[xX]', sp) for sp in specs) and any('\\x' in k for k in consts)
+        # every escape is written with the number of hex digits its prefix takes: \\xNN, \\uNNNN, \\UNNNNNNNN
+        width = {'x': '02', 'u': '04', 'U': '08'}
+        pairs = [(m.group(1), m.group(2)) for k in consts for m in _re.finditer(r'\\([xuU])%(0?\d*)[xX]', k)]
+        hexok = bool(pairs) and all(width.get(p_) == w_ for p_, w_ in pairs) and len(pairs) == len(specs) or \
+            (all(_re.fullmatch(r'%02[xX]|\{[^}]*:02[xX]\}|02[xX]', sp) for sp in specs) and any('\\x' in k for k in consts))
         chk.ob(rule, 'pydoctor.stanutils.html2stan :: control characters become \\xNN hex escapes', hexok,
-               f'replacement {norm(repl)[:50]} writes a two-digit hex escape' if hexok else
-               f'replacement {norm(repl)[:60]} does not write the two-digit *hex* code after \\x: e.g. \\x1b would be displayed as another character',
+               f'replacement {norm(c.args[0])[:50]} writes hex escapes of the right width' if hexok else
+               f'replacement {norm(c.args[0])[:60]} does not write the two-digit *hex* code after \\x: e.g. \\x1b would be displayed as another character',
                repo.loc(f.mod, c))
 
 
